@@ -34,6 +34,26 @@ func (m *verifManifest) EcosystemSpecific() any                            { ret
 func (m *verifManifest) PatchRequirement(resolve.RequirementVersion) error { return nil }
 func (m *verifManifest) Clone() manifest.Manifest                          { return m }
 
+// VerifConfigFromStrings: the configuration parsed from "pkg:level" strings gives each named
+// package its own level (package names may contain ':' themselves, as Maven's group:artifact)
+// and every other package the default.
+func VerifConfigFromStrings() {
+	levels := []string{"major", "minor", "patch", "none"}
+	want := []upgrade.Level{upgrade.Major, upgrade.Minor, upgrade.Patch, upgrade.None}
+	names := []string{"lodash", "g:a", "org.x:lib-y", "@scope/pkg"}
+	d := verifrt.Choice("default-level", 4)
+	n := verifrt.Choice("package", len(names))
+	l := verifrt.Choice("package-level", 4)
+	entries := []string{levels[d], names[n] + ":" + levels[l]}
+	if verifrt.Choice("default-last", 2) == 1 {
+		entries = []string{names[n] + ":" + levels[l], levels[d]}
+	}
+	cfg := upgrade.NewConfigFromStrings(entries)
+	verifrt.Reach("parsed")
+	verifrt.Assert(cfg.Get(names[n]) == want[l], "the level configured for a package is the one that applies to it")
+	verifrt.Assert(cfg.Get("some:other") == want[d] && cfg.Get("other") == want[d], "packages without their own entry get the default level")
+}
+
 // VerifSuggestAll: the whole bulk-update step (MavenSuggester.Suggest) on a manifest that requires
 // one package twice at different versions (dependencies and a profile, say) and a second package
 // configured as not upgradable: every proposed update moves its own requirement upward within
